@@ -124,6 +124,8 @@ STMTS_T = [
     'if false then x = tab(1, tab(1, tup(2, "b", 3))); end if;',
     'x.set@2("z");', 'x.at(0).set@2("z");', "print x@2;", "print x.at(0)@2;", "print x.count();", "y = x;", "print typeof(x);",
     "forall e in x loop print e@1; end loop;", 'x.concat(tup(7, "c"));', "x = null;",
+    # a variable of a plain type is given a structured value that is null (the value carries no declaration)
+    "x = 5;", "x = tup();", 'x = tab(int(), tup(1, "a"));', "x = tab();",
 ]
 
 
@@ -197,6 +199,14 @@ def check_prog(case, res, vs):
         key = "batch-vs-stepwise:state"
         if only_unexecuted_typing(len(m["seq"])) and strip_null_types(vals(wdump)) == strip_null_types(vals(pdump)):
             key += ":typed-only-by-unexecuted-assignment:null-of-another-type"
+        elif wf.get("funcs") == pf.get("funcs") and strip_null_types(vals(wdump)) == strip_null_types(vals(pdump)):
+            wv, pv = vals(wdump), vals(pdump)
+            diff = [kk for kk in wv if wv[kk] != pv.get(kk)]
+            if diff and all(wv[kk].startswith("N(") and pv.get(kk, "").startswith("N(") for kk in diff):
+                # the variable (a forall iterator after its loop) is null either way; the type the null carries is the one the compiler had
+                # for the table when the loop was compiled: as one unit that can be less (x = tab(): untyped) or more (a null table of tuples
+                # assigned just before: the declaration is known to the compiler, the null value does not carry it) than statement by statement
+                key += ":null-typed-by-what-the-compiler-knew"
         vs.append(Violation(key, "the program %r leaves %r as one unit and %r statement by statement" % (
             " ".join(m["seq"]), wdump.get("vars"), pdump.get("vars")), case))
     return vs, True
